@@ -398,3 +398,26 @@ PROPS["C17"] = {
         {"name": "rapid", "mode": "rapid", "run": "TestC17Rapid", "checks": {"quick": 24000, "thorough": 480000}},
     ],
 }
+
+PROPS["C18"] = {
+    "level": "exploration",
+    "rule": ("Library-valid Specs from the shared generator (all optional members, <= 3 devices, numeric extremes of every integer field, hook "
+             "timeouts in {0, 1, 30, 2^31-1, 2^32-1}, hostile strings in 3 of 4 cases). Oracle: precondition - with no validator installed "
+             "WriteSpec/ReadSpec accept the Spec (otherwise the run is undecided: generator bug); then schema.BuiltinSchema().Validate(spec) "
+             "must be nil, and with cdi.SetSpecValidator(BuiltinSchema()) installed WriteSpec to .json and .yaml, ReadSpec of both, "
+             "ValidateFile and ValidateData of both written files must succeed, the files read back equal, and a cache over them reports "
+             "no load error. Non-trivial iff the Spec has annotations, an integer extreme, or a string outside [A-Za-z0-9_./=-]*; "
+             "distinct = distinct Specs."),
+    "assumptions": ["'library-valid' is what the shared generator emits (checked per case by the precondition)", "the Spec validator is process-global: one case at a time per process, reset after each case"],
+    "manifest": {
+        "text": "Random library-valid Specs through the schema in memory and through the write / schema-checked read path in both encodings; sampling.",
+        "note": "trusted: the generator only emits Specs the library accepts (asserted per case)",
+        "technique": "property-based testing: implication oracle (library accepts => schema accepts) over generated Specs, round trip with the validator installed",
+    },
+    "health": {"quick": {"has:hooks": 500, "has:timeout": 200, "has:intelRdt": 200, "has:fileMode": 200, "spec-annotations": 300, "device-annotations": 300,
+                         "int:9223372036854775807": 100, "int:4294967295": 300, "str:line-break": 300}},
+    "units": [
+        {"name": "regress", "mode": "plain", "run": "TestC18Regress"},
+        {"name": "rapid", "mode": "rapid", "run": "TestC18Rapid", "checks": {"quick": 16000, "thorough": 320000}},
+    ],
+}
